@@ -50,7 +50,8 @@ type CheckCfg struct {
 	Assumptions []string           `json:"assumptions"`  // free text, copied into evidence
 	Outside     []string           `json:"outside"`      // free text: outside the claim
 	Overlays    map[string]string  `json:"src_overlays"`
-	ValidateWitnesses int `json:"validate_witnesses"` // repo-relative file -> sed-like "old=>new" one-line source overlay
+	ValidateWitnesses int `json:"validate_witnesses"`
+	Inductive []string `json:"inductive"` // harnesses that start from an assumed invariant: a failure is a CTI, reported only as a note // repo-relative file -> sed-like "old=>new" one-line source overlay
 }
 
 type Known struct {
@@ -236,6 +237,14 @@ func cmdCheck(args []string) int {
 			if !vacOK[name] {
 				notes = append(notes, "vacuity twin "+name+" was NOT violated: harness may be vacuous")
 				fmt.Printf("  VACUITY-FAILURE: twin %s not violated\n", name)
+			}
+			continue
+		}
+		if contains(c.Inductive, name) {
+			if len(st.Violations) > 0 {
+				msg := fmt.Sprintf("inductive step %s: %d counterexample(s) to induction, e.g. %q (%s); not a violation by itself (the pre-state may be unreachable): the claim is reduced to the bounded histories", name, len(st.Violations), st.Violations[0].Msg, summarize(st.Violations[0]))
+				notes = append(notes, msg)
+				fmt.Println("  CTI: " + msg)
 			}
 			continue
 		}
